@@ -53,6 +53,8 @@ type prop struct {
 	// RacePkg: harness package run free-running under `go test -race` after the
 	// shards (uninstrumented, no overlay). Sampled, never exhaustive.
 	RacePkg string
+	// RaceBodies: prefixes of the bodies of RacePkg that belong to this property.
+	RaceBodies string
 }
 
 var props = []prop{
@@ -63,15 +65,15 @@ var props = []prop{
 	{ID: "C05", Level: "exploration", Shards: 16},
 	{ID: "C06", Level: "model_checking", Shards: 16},
 	{ID: "C07", Level: "model_checking", Overlay: true, Shards: 16, QuickBudget: 45, ThoroughBudget: 900, RacePkg: "c07race"},
-	{ID: "C08", Level: "model_checking", Overlay: true, Shards: 16, QuickBudget: 45, ThoroughBudget: 900},
+	{ID: "C08", Level: "model_checking", Overlay: true, Shards: 16, QuickBudget: 45, ThoroughBudget: 900, RacePkg: "subrace", RaceBodies: "C08-"},
 	{ID: "C09", Level: "model_checking", Overlay: true, Shards: 16},
 	{ID: "C10", Level: "exploration", Shards: 16},
 	{ID: "C11", Level: "exploration", Shards: 16},
 	{ID: "C12", Level: "exploration", Shards: 16},
 	{ID: "C13", Level: "exploration", Shards: 16},
-	{ID: "C14", Level: "model_checking", Overlay: true, Shards: 16, QuickBudget: 45, ThoroughBudget: 900},
-	{ID: "C15", Level: "model_checking", Overlay: true, Shards: 16, QuickBudget: 45, ThoroughBudget: 900},
-	{ID: "C16", Level: "model_checking", Overlay: true, Shards: 16, QuickBudget: 45, ThoroughBudget: 900},
+	{ID: "C14", Level: "model_checking", Overlay: true, Shards: 16, QuickBudget: 45, ThoroughBudget: 900, RacePkg: "subrace", RaceBodies: "C14-,C15-sync"},
+	{ID: "C15", Level: "model_checking", Overlay: true, Shards: 16, QuickBudget: 45, ThoroughBudget: 900, RacePkg: "subrace", RaceBodies: "C15-"},
+	{ID: "C16", Level: "model_checking", Overlay: true, Shards: 16, QuickBudget: 45, ThoroughBudget: 900, RacePkg: "subrace", RaceBodies: "C16-"},
 	{ID: "C17", Level: "exploration", Shards: 16},
 	{ID: "C18", Level: "exploration", Shards: 16},
 	{ID: "C19", Level: "exploration", Shards: 16},
@@ -496,6 +498,11 @@ func cmdCheck(args []string) int {
 		}
 		c.Counters["race_pass_rounds"] = rounds
 		c.Counters["race_pass_reports"] = int64(len(rv))
+		c.Counters["race_pass_reports_on_modelled_fields"] = int64(len(raceModelled))
+		for _, m := range raceModelled {
+			c.Notes = append(c.Notes, "race pass: data race of the library on a plain field, "+m+"; not a violation of this property by itself; both accesses are scheduling points of the model-checked part (instr.go racyFields), which explores their orders")
+			fmt.Printf("NOTE: property=%s race on a modelled plain field (%s): explored as scheduling nondeterminism, not an alarm\n", p.ID, m)
+		}
 		c.Notes = append(c.Notes, fmt.Sprintf("race pass: %s ran %d rounds free-running under go test -race on the uninstrumented code; it is SAMPLED, not exhaustive, and is the only part of this check that can see data races. `exhaustive` is therefore false for the check as a whole; the model-checked part alone completed: %v", p.RacePkg, rounds, c.Exhaustive))
 		c.Counters["scheduled_part_exhaustive_at_bound"] = map[bool]int64{true: 1, false: 0}[c.Exhaustive]
 		c.Exhaustive = false
@@ -735,6 +742,44 @@ func cmdInstr(args []string) int {
 	return 0
 }
 
+// raceModelled: race reports of the last race pass whose two accesses are both
+// on statements modelled as scheduling points (see instr.go racyFields).
+var raceModelled []string
+
+// modelledRace: every reported access ("file.go:line") is on a source line of
+// the current working tree that touches a racy field listed in instr.go.
+func modelledRace(sites []string) bool {
+	if len(sites) < 2 {
+		return false
+	}
+	for _, site := range sites {
+		i := strings.LastIndexByte(site, ':')
+		if i < 0 {
+			return false
+		}
+		var ln int
+		fmt.Sscanf(site[i+1:], "%d", &ln)
+		data, err := os.ReadFile(filepath.Join(repoDir, site[:i]))
+		if err != nil {
+			return false
+		}
+		ls := strings.Split(string(data), "\n")
+		if ln < 1 || ln > len(ls) {
+			return false
+		}
+		ok := false
+		for _, rf := range racyFields {
+			if filepath.Base(site[:i]) == rf.File && strings.Contains(ls[ln-1], rf.Expr) {
+				ok = true
+			}
+		}
+		if !ok {
+			return false
+		}
+	}
+	return true
+}
+
 // racePass builds and runs the race package and turns every distinct data-race
 // report into a violation.
 func racePass(p *prop, wd, tier string) ([]violation, int64, error) {
@@ -743,7 +788,7 @@ func racePass(p *prop, wd, tier string) ([]violation, int64, error) {
 	}
 	cmd := exec.Command(goBin, "test", "-race", "-count=1", "-vet=off", "-v", "-run", "^TestRaceBodies$", "./"+p.RacePkg)
 	cmd.Dir = filepath.Join(verifDir, "harness")
-	cmd.Env = append(goEnv(), "VERIF_TIER="+tier, "GOLOG_LOG_LEVEL=fatal", "GORACE=halt_on_error=0")
+	cmd.Env = append(goEnv(), "VERIF_TIER="+tier, "VERIF_RACE_BODIES="+p.RaceBodies, "GOLOG_LOG_LEVEL=fatal", "GORACE=halt_on_error=0")
 	out, runErr := cmd.CombinedOutput()
 	logPath := filepath.Join(wd, "race-pass.log")
 	os.WriteFile(logPath, out, 0o644)
@@ -762,25 +807,41 @@ func racePass(p *prop, wd, tier string) ([]violation, int64, error) {
 		return nil, rounds, nil
 	}
 	// one violation per distinct pair of repository source lines
+	raceModelled = nil
+	var modelled []string
+	defer func() { raceModelled = modelled }()
 	var out2 []violation
 	seen := map[string]bool{}
 	for _, rep := range strings.Split(text, "WARNING: DATA RACE")[1:] {
+		// the innermost repository frame of each of the two accesses (a report
+		// has two stacks: "Write at / Read at" and "Previous write / read at")
 		var lines []string
+		want := false
 		for _, l := range strings.Split(rep, "\n") {
 			l = strings.TrimSpace(l)
-			if strings.HasPrefix(l, repoDir+"/") && !strings.Contains(l, "_test.go") {
-				f := strings.Fields(l)[0]
-				lines = append(lines, strings.TrimPrefix(f, repoDir+"/"))
-				if len(lines) == 2 {
-					break
-				}
-			}
 			if strings.HasPrefix(l, "Goroutine ") {
 				break
 			}
+			if strings.Contains(l, " at 0x") && (strings.HasPrefix(l, "Write") || strings.HasPrefix(l, "Read") || strings.HasPrefix(l, "Previous") || strings.HasPrefix(l, "Atomic")) {
+				want = true
+				continue
+			}
+			if want && strings.HasPrefix(l, repoDir+"/") && !strings.Contains(l, "_test.go") {
+				f := strings.Fields(l)[0]
+				lines = append(lines, strings.TrimPrefix(f, repoDir+"/"))
+				want = false
+			}
 		}
+		sort.Strings(lines)
 		key := strings.Join(lines, " vs ")
 		if key == "" || seen[key] {
+			continue
+		}
+		if modelledRace(lines) {
+			// both accesses are on statements that the scheduled part explores
+			// as scheduling points (instr.go: racyFields): not an alarm
+			seen[key] = true
+			modelled = append(modelled, key)
 			continue
 		}
 		seen[key] = true
